@@ -8,7 +8,7 @@ import (
 // RFC 3986 reference resolution (§5.2), written from the RFC and independent of net/url.
 
 type URI struct {
-	Scheme, Authority, Path, Query, Fragment string
+	Scheme, Authority, Path, Query, Fragment       string
 	HasScheme, HasAuthority, HasQuery, HasFragment bool
 }
 
